@@ -470,7 +470,15 @@ impl TTS {
                         // elements made from an intent value (concept names, literals) have no id -- there is nothing to mark
                         return Ok( String::new() );
                     }
-                    let id = xpath.replace::<String>(rules_with_context, mathml)?;
+                    // the id is data, not speech: take the value as it is (going through the speech replacements turned an id such as
+                    // '+' into 'plus' and wrapped a one-letter id in spell tags) and escape what can't be inside an attribute value
+                    let id = match xpath.evaluate(rules_with_context.get_context(), mathml)
+                                .chain_err(|| format!("in 'bookmark': can't evaluate xpath \"{}\"", &xpath.to_string()) )? {
+                        Value::String(s) => s,
+                        Value::Nodeset(nodes) if nodes.size() == 1 => nodes.iter().next().unwrap().string_value(),
+                        _ => bail!("in 'bookmark': value returned from xpath '{}' does not evaluate to a string", &xpath.to_string()),
+                    };
+                    let id = id.replace('&', "&amp;").replace('<', "&lt;").replace('\'', "&apos;");
                     return Ok( format!("<{}='{}'/>", tag_and_attr, id) );
                 },
                 _ => bail!("Implementation error: found bookmark value that did not evaluate to a string"),
